@@ -212,7 +212,7 @@ STAGES = [
           strategy=lambda tier: strategy_case(tier),
           examples={
               "quick": 400,
-              "thorough": 4000
+              "thorough": 8000
           },
           fork=True,
           rust=True)
